@@ -162,7 +162,7 @@ def lines_term(lines):
     items = [cq_str(l) for l in lines]
     if len(items) <= 1500:
         return cq_list(items)
-    return "(" + " ++ ".join(cq_list(items[i:i + 1500]) for i in range(0, len(items), 1500)) + ")"
+    return "(" + " ++ ".join(cq_list(items[i:i + 1500]) for i in range(0, len(items), 1500)) + ")%list"
 
 
 def ofloat_term(x):
@@ -196,7 +196,7 @@ class MolTable:
         if not self.terms:
             return "[]"
         ch = [cq_list(self.terms[i:i + 200]) for i in range(0, len(self.terms), 200)]
-        return "(" + " ++ ".join(ch) + ")"
+        return "(" + " ++ ".join(ch) + ")%list"
 
 
 def obs_term(outcome, table):
